@@ -134,6 +134,9 @@ impl Shape {
             planted = Some(format!("{} {}{}", s(&c), p2, z));
             cx.count("stores with a 16-bit look-alike gram pair");
         }
+        if self.0 == Which::Related && !crowd && cx.rng.chance(1, 8) {
+            self.registry_session(cx, lang, &recs);
+        }
         let limit = if crowd { if self.0 == Which::Related { *cx.rng.pick(&[1, 2, 3, 10, 200]) } else { 200 } } else { *cx.rng.pick(&[10, 10, 10, 1, 2, 3, 65536]) };
         // C05/C09 read the spans from sentinel markers; one store in three is configured with sentinel
         // runs of different lengths (1-3 characters each), collapsed again before the hit is parsed, so
@@ -405,6 +408,55 @@ impl Shape {
                 }
             }
         }
+    }
+
+    /// C05 clause 1 through the top-level registry API (what the JS wrapper calls): the hits read from the result buffer
+    /// after `run_search` must share a gram with THAT query - also right after the store was emptied in place, refilled,
+    /// re-marked or had its limit changed.
+    fn registry_session(&self, cx: &mut Cx, lang: &'static str, recs: &[Rec]) {
+        let id = (cx.idx as usize + 3_000_000) * 2;
+        create_store(id, take_lang(lang));
+        for r in recs {
+            add_record(id, r.0, &r.1, r.2);
+        }
+        let probe = St::build_sentinel(lang, recs, 10);
+        let mut live: Vec<Rec> = recs.to_vec();
+        for step in 0..6 {
+            match cx.rng.below(5) {
+                0 => {
+                    using_store(id, |s| s.clear());
+                    live.clear();
+                }
+                1 => {
+                    if let Some(r) = recs.get(step % recs.len().max(1)) {
+                        add_record(id, r.0, &r.1, r.2);
+                        live.push(r.clone());
+                    }
+                }
+                2 => set_limit(id, *cx.rng.pick(&[0usize, 1, 3, 10])),
+                _ => {}
+            }
+            let q = if cx.rng.chance(1, 2) || recs.is_empty() { gen::any_word(&mut cx.rng, lang) } else { shape_query(&mut cx.rng, lang, &probe.store.lang, recs, Which::Related) };
+            let tq = probe.tok_query(&q);
+            if tq.words.is_empty() {
+                continue;
+            }
+            let qgrams = oracle::grams_of(&tq);
+            cx.ctx(format!("C05 registry lang={} records={:?} step {} q={:?}", lang, recs, step, q));
+            run_search(id, &q);
+            let hits: Hits = using_results(id, |b| b.iter().map(|r| (r.id, r.title.clone())).collect());
+            cx.count("registry searches");
+            for h in &hits {
+                cx.eval();
+                let shares = live.iter().any(|r| r.0 == h.0 && !oracle::grams_of(&probe.tok_record(&r.1)).is_disjoint(&qgrams));
+                if !shares {
+                    cx.fail("unrelated-hit", json!({"lang": lang, "through": "top-level registry API (run_search, then the result buffer)", "records_now_in_the_store": live, "query": q, "hit": h}));
+                    destroy_store(id);
+                    return;
+                }
+            }
+        }
+        destroy_store(id);
     }
 
     /// C05 clause 1 on large stores: every hit of the whole-corpus store must share a gram with the query.
@@ -788,7 +840,7 @@ impl Prop for Shape {
     fn floors(&self) -> Vec<(&'static str, u64, u64)> {
         match self.0 {
             Which::Titles => vec![("hit with span", 2000, 20000), ("hit whose title needed composition", 50, 500), ("hit with expanding letter", 50, 500), ("hit whose title has NUL", 30, 300), ("hit whose title contains marker text", 50, 500), ("bridge searches with hits", 200, 2000), ("empty-query searches", 100, 1000), ("stores cleared and refilled before a search", 1000, 10000), ("stores of 70-150 records with one very long title", 100, 5000)],
-            Which::Related => vec![("hit with fuzzy span", 200, 2000), ("hit with joined-record spans", 20, 200), ("exact-prefix case", 2000, 20000), ("exact-prefix ending inside an expanded letter", 5, 50), ("corpus-store searches", 300, 8000), ("corpus-store searches with more than 8 query words", 50, 1200), ("big-catalogue searches", 100, 1000), ("stores with a 16-bit look-alike gram pair", 100, 1000), ("stores cleared and refilled before a search", 1000, 10000), ("session searches on one store", 600000, 4000000), ("session hits judged", 60000, 400000)],
+            Which::Related => vec![("hit with fuzzy span", 200, 2000), ("hit with joined-record spans", 20, 200), ("exact-prefix case", 2000, 20000), ("exact-prefix ending inside an expanded letter", 5, 50), ("corpus-store searches", 300, 8000), ("corpus-store searches with more than 8 query words", 50, 1200), ("big-catalogue searches", 100, 1000), ("registry searches", 3000, 30000), ("stores with a 16-bit look-alike gram pair", 100, 1000), ("stores cleared and refilled before a search", 1000, 10000), ("session searches on one store", 600000, 4000000), ("session hits judged", 60000, 400000)],
             Which::Markup => vec![("hit with 2+ spans", 500, 5000), ("stores cleared and refilled before a search", 1000, 10000), ("joined-record split (more spans than query words)", 20, 200), ("hit of separator-only query", 200, 2000), ("span in title with padding", 30, 300), ("joined-with-typos hits with 2+ spans and typos", 2000, 100000), ("stores with opening and closing markers of different lengths", 1000, 10000)],
         }
     }
